@@ -3,6 +3,7 @@ import Pocket.Lemmas.Digits
 import Pocket.Lemmas.FilterRT
 import Pocket.Lemmas.Layout
 import Pocket.Lemmas.ParseFilterWF
+import Pocket.Lemmas.FilterOrder
 /-
 C07 — filter JSON parsing: integer members never wrap, duplicate tag letters are detected
 whatever their position, and the parser is total.
@@ -14,9 +15,24 @@ since/until/limit, members present or defaulted — `as_json` succeeds and `from
 text and yields exactly the bytes of `from_parts`, whose accessors return the filter.  Both passes
 of the parser are covered: the first records positions and skips values, the second copies.
 
-Faithfulness to an independent parser on *arbitrary* texts and order independence are established
-by the correspondence check (Python `json`, all 52×52 letter pairs, member permutations) and are
-not claimed as theorems.
+ANY ORDER, ANY SEPARATORS, UNKNOWN MEMBERS (`any_order_any_whitespace_unknown_members`): a filter text
+is a list of members — the six NIP-01 members with values written as `as_json` writes them, `"#l":[…]`
+for letters `l`, and unknown members `"key":value` with ANY JSON value nested at most 64 deep (strings
+with any escapes, numbers, literals, arrays, objects, any whitespace) — in ANY order, separated by any
+mix of whitespace and commas, any whitespace round each colon, after any leading whitespace, followed
+by anything.  If each NIP-01 member occurs at most once and the tag letters are distinct, the parser
+accepts it, consumes up to the closing brace, and writes exactly `from_parts` of the filter the members
+denote (tag constraints in the order of the text; `limit` saturated at 2^32-1).
+
+ORDER INDEPENDENCE (`order_independent`, `acceptance_order_independent`): two texts whose member lists
+are permutations of each other (whatever their separators) are both accepted or both refused, and when
+accepted denote the same ids, authors, kinds, since, until, limit and the same set of tag constraints.
+A repeated member is refused wherever it stands (`repeated_member_refused`).
+
+Not theorems: acceptance of other spellings of the NIP-01 member VALUES (whitespace inside the arrays,
+upper-case hex, escapes inside tag values other than those `as_json` uses) and order independence for
+member lists with ill-formed values — those rest on the correspondence check (Python `json`, CST
+generator, ill-formed member groups in several orders).
 -/
 namespace Pocket.C07
 open Pocket
@@ -113,6 +129,114 @@ theorem round_trip_values (f : FilterRec) (hc : FilterCanon f) (rest buf : Bytes
   refine ⟨txt, _, _, _, ht, hp, rfl, ?_⟩
   rw [List.take_left' rfl]
   exact filterDecode_encode f hc.sized
+
+/-- **any order, any separators, unknown members**: see the header -/
+theorem any_order_any_whitespace_unknown_members (ms : List FSpec) (hws : ∀ x ∈ ms, x.WsOk)
+    (hacc : ({} : FAbs).accepts (ms.map (·.m)))
+    (lead wEnd rest buf : Bytes) (hlead : AllWs lead) (hwe : SepWs wEnd)
+    (hs : FilterSized (({} : FAbs).run (ms.map (·.m))).toFilter)
+    (hbuf : (encodeFilter (({} : FAbs).run (ms.map (·.m))).toFilter).length ≤ buf.length) :
+    parseFilter (lead ++ 123 :: flText ms (wEnd ++ 125 :: rest)) buf =
+      .ok ((lead ++ 123 :: flText ms (wEnd ++ 125 :: rest)).length - rest.length,
+        (encodeFilter (({} : FAbs).run (ms.map (·.m))).toFilter).length,
+        encodeFilter (({} : FAbs).run (ms.map (·.m))).toFilter ++
+          buf.drop (encodeFilter (({} : FAbs).run (ms.map (·.m))).toFilter).length) :=
+  parseFilter_any_order ms hws hacc lead wEnd rest buf hlead hwe hs hbuf
+
+/-- the acceptance condition says nothing about positions: every member well-formed, no NIP-01 member
+and no tag letter twice -/
+theorem accepts_characterised (ms : List FMem) :
+    ({} : FAbs).accepts ms ↔ (∀ m ∈ ms, FMemOk m) ∧ (ms.filterMap slot).Nodup := by
+  rw [accepts_iff]
+  constructor
+  · rintro ⟨h1, h2, _⟩; exact ⟨h1, h2⟩
+  · rintro ⟨h1, h2⟩
+    refine ⟨h1, h2, fun m _ => ?_⟩
+    cases m <;> simp [FAbs.fresh]
+
+/-- a repeated NIP-01 member or tag letter is refused wherever it stands -/
+theorem repeated_member_refused (ms : List FSpec) (hws : ∀ x ∈ ms, x.WsOk) (hok : ∀ x ∈ ms, FMemOk x.m)
+    (hrep : ¬ ((ms.map (·.m)).filterMap slot).Nodup) (lead wEnd rest buf : Bytes) (hlead : AllWs lead)
+    (hwe : SepWs wEnd) : parseFilter (lead ++ 123 :: flText ms (wEnd ++ 125 :: rest)) buf = .err :=
+  parseFilter_reject ms hws hok (fun h => hrep ((accepts_characterised _).mp h).2) lead wEnd rest buf hlead hwe
+
+/-- **order independence of the meaning**: two texts whose member lists are permutations of each other
+(with whatever separators) denote the same filter up to the order of the tag constraints; both are
+accepted into any buffers that hold the result -/
+theorem order_independent (ms₁ ms₂ : List FSpec) (hp : (ms₁.map (·.m)).Perm (ms₂.map (·.m)))
+    (hws₁ : ∀ x ∈ ms₁, x.WsOk) (hws₂ : ∀ x ∈ ms₂, x.WsOk) (hacc : ({} : FAbs).accepts (ms₁.map (·.m)))
+    (lead₁ wEnd₁ rest₁ buf₁ lead₂ wEnd₂ rest₂ buf₂ : Bytes) (hl₁ : AllWs lead₁) (hl₂ : AllWs lead₂)
+    (he₁ : SepWs wEnd₁) (he₂ : SepWs wEnd₂)
+    (hs : FilterSized (({} : FAbs).run (ms₁.map (·.m))).toFilter)
+    (hb₁ : (encodeFilter (({} : FAbs).run (ms₁.map (·.m))).toFilter).length ≤ buf₁.length)
+    (hb₂ : (encodeFilter (({} : FAbs).run (ms₁.map (·.m))).toFilter).length ≤ buf₂.length) :
+    ∃ f₁ f₂ c₁ c₂,
+      parseFilter (lead₁ ++ 123 :: flText ms₁ (wEnd₁ ++ 125 :: rest₁)) buf₁ =
+        .ok (c₁, (encodeFilter f₁).length, encodeFilter f₁ ++ buf₁.drop (encodeFilter f₁).length) ∧
+      parseFilter (lead₂ ++ 123 :: flText ms₂ (wEnd₂ ++ 125 :: rest₂)) buf₂ =
+        .ok (c₂, (encodeFilter f₂).length, encodeFilter f₂ ++ buf₂.drop (encodeFilter f₂).length) ∧
+      f₁.ids = f₂.ids ∧ f₁.authors = f₂.authors ∧ f₁.kinds = f₂.kinds ∧ f₁.since = f₂.since ∧
+      f₁.until = f₂.until ∧ f₁.limit = f₂.limit ∧ f₁.tags.Perm f₂.tags := by
+  have hacc₂ := accepts_perm _ _ hp {} hacc
+  have hnd := ((accepts_iff _ _).mp hacc).2.1
+  have heq := toFilter_equiv _ _ (run_perm _ _ hp hnd {})
+  obtain ⟨e1, e2, e3, e4, e5, e6, e7⟩ := heq
+  obtain ⟨hs₂, hlen⟩ := sized_equiv _ _ hs e1 e2 e3 e4 e5 e6 e7
+  exact ⟨_, _, _, _, parseFilter_any_order ms₁ hws₁ hacc lead₁ wEnd₁ rest₁ buf₁ hl₁ he₁ hs hb₁,
+    parseFilter_any_order ms₂ hws₂ hacc₂ lead₂ wEnd₂ rest₂ buf₂ hl₂ he₂ hs₂ (by rw [hlen]; exact hb₂),
+    e1, e2, e3, e4, e5, e6, e7⟩
+
+/-- **order independence of acceptance**: for member lists with well-formed values whose result fits
+the format and the buffer, one order is accepted iff every other order is -/
+theorem acceptance_order_independent (ms₁ ms₂ : List FSpec) (hp : (ms₁.map (·.m)).Perm (ms₂.map (·.m)))
+    (hws₁ : ∀ x ∈ ms₁, x.WsOk) (hws₂ : ∀ x ∈ ms₂, x.WsOk) (hok : ∀ x ∈ ms₁, FMemOk x.m)
+    (lead₁ wEnd₁ rest₁ lead₂ wEnd₂ rest₂ buf : Bytes) (hl₁ : AllWs lead₁) (hl₂ : AllWs lead₂)
+    (he₁ : SepWs wEnd₁) (he₂ : SepWs wEnd₂)
+    (hfit : FilterSized (({} : FAbs).run (ms₁.map (·.m))).toFilter ∧
+      (encodeFilter (({} : FAbs).run (ms₁.map (·.m))).toFilter).length ≤ buf.length) :
+    (∃ r, parseFilter (lead₁ ++ 123 :: flText ms₁ (wEnd₁ ++ 125 :: rest₁)) buf = .ok r) ↔
+    (∃ r, parseFilter (lead₂ ++ 123 :: flText ms₂ (wEnd₂ ++ 125 :: rest₂)) buf = .ok r) := by
+  have hok₂ : ∀ x ∈ ms₂, FMemOk x.m := by
+    intro x hx
+    have : x.m ∈ ms₁.map (·.m) := hp.mem_iff.mpr (List.mem_map.mpr ⟨x, hx, rfl⟩)
+    obtain ⟨y, hy, hym⟩ := List.mem_map.mp this
+    rw [← hym]; exact hok y hy
+  by_cases hacc : ({} : FAbs).accepts (ms₁.map (·.m))
+  · obtain ⟨f₁, f₂, c₁, c₂, h1, h2, _⟩ := order_independent ms₁ ms₂ hp hws₁ hws₂ hacc lead₁ wEnd₁ rest₁ buf
+      lead₂ wEnd₂ rest₂ buf hl₁ hl₂ he₁ he₂ hfit.1 hfit.2 hfit.2
+    exact ⟨fun _ => ⟨_, h2⟩, fun _ => ⟨_, h1⟩⟩
+  · have hacc₂ : ¬ ({} : FAbs).accepts (ms₂.map (·.m)) := fun h => hacc (accepts_perm _ _ hp.symm {} h)
+    have r1 := parseFilter_reject ms₁ hws₁ hok hacc lead₁ wEnd₁ rest₁ buf hl₁ he₁
+    have r2 := parseFilter_reject ms₂ hws₂ hok₂ hacc₂ lead₂ wEnd₂ rest₂ buf hl₂ he₂
+    rw [r1, r2]
+
+/-- the member-list hypotheses are satisfiable: `{ "x":{"a":[1,true]} , "#e":[] ,"since" : 7 }` -/
+example : ∃ ms : List FSpec, (∀ x ∈ ms, x.WsOk) ∧ ({} : FAbs).accepts (ms.map (·.m)) ∧ ms.length = 3 ∧
+    FilterSized (({} : FAbs).run (ms.map (·.m))).toFilter := by
+  refine ⟨[⟨[32], [], [], .unknown [120] (123 :: ([] ++ 34 :: ([97] ++ 34 :: ([] ++ 58 :: ([] ++
+              ((91 :: ([] ++ ([49] ++ ([44] ++ ([116, 114, 117, 101] ++ ([] ++ [93])))))) ++ ([] ++ [125])))))))⟩,
+           ⟨[32, 44], [], [], .tag 101 [] []⟩, ⟨[44], [32], [32], .since 7⟩], ?_, ?_, rfl, ?_⟩
+  · intro x hx
+    simp only [List.mem_cons, List.not_mem_nil, or_false] at hx
+    rcases hx with rfl | rfl | rfl <;> refine ⟨?_, ?_, ?_⟩ <;> intro b hb <;> simp at hb <;>
+      first | (rcases hb with rfl | rfl <;> simp [isWs]) | (subst hb; simp [isWs])
+  · refine (accepts_characterised _).mpr ⟨?_, by decide⟩
+    intro m hm
+    simp only [List.map_cons, List.map_nil, List.mem_cons, List.not_mem_nil, or_false] at hm
+    rcases hm with rfl | rfl | rfl
+    · refine ⟨.raw 120 [] (by decide) (by decide) .nil, by decide, ?_, 2, by decide, ?_⟩
+      · intro l _ h; cases h
+      · refine .obj _ (.mCons [] [97] [] [] _ _ (by intro b hb; cases hb) (.raw 97 [] (by decide) (by decide) .nil)
+          (by intro b hb; cases hb) (by intro b hb; cases hb) ?_ (.mEnd [] (by intro b hb; cases hb)) ?_)
+        · refine .arr _ (.eCons [] [49] _ (by intro b hb; cases hb) (.num [49] ⟨49, [], rfl, Or.inr (by decide), by simp⟩) ?_ ?_)
+          · refine .eCons [44] [116, 114, 117, 101] _ (by intro b hb; simp at hb; exact Or.inr hb) .tru
+              (.eEnd [] (by intro b hb; cases hb)) ?_
+            intro b r h; simp at h; obtain ⟨rfl, _⟩ := h; decide
+          · intro b r h; simp at h; obtain ⟨rfl, _⟩ := h; decide
+        · intro b r h; simp at h; obtain ⟨rfl, _⟩ := h; decide
+    · exact ⟨by decide, by simp, rfl, by simp⟩
+    · simp [FMemOk]
+  · constructor <;> simp [FAbs.run, FAbs.apply, FAbs.toFilter, U64MAX, U32MAX, satLimit, tagsSize, tagsBodySize, tagSize, strsSize]
 
 /-- the hypotheses are satisfiable: ids, a kind, two tag constraints, a limit -/
 example : ∃ f : FilterRec, FilterCanon f ∧ f.tags.length = 2 ∧ f.ids ≠ [] := by
